@@ -55,7 +55,10 @@ class C10(FmtCheck):
                   "same strings are executed as exact-size heap copies under ASan through ST::format and TLC decides every recorded outcome")
     rule = ("all strings over 13 parser token classes { } _ . & 0 5 x c space - a 0xC3 up to length 4 (quick) / 5 (thorough), each with "
             "argument lists of 0..3 arguments, plus null format strings, plus seeded random byte strings up to 40 bytes biased to the special "
-            "characters (digit runs <= 8 or >= 20); outcome class and output of ST::format and 10 other sinks recorded")
+            "characters (digit runs that can be a width stay below 1000); directed numeric fields (widths, precisions, argument references at the "
+            "2^31 / 2^32 / LONG_MAX boundaries, signs, blanks, widths 246..1025 behind existing output); specifiers of 30..200 repeated flags "
+            "ending validly, with an unexpected byte or at the terminator; every width x radix x flag x padding layout without the other sinks; "
+            "float fields incl. negative precisions; outcome class and output of ST::format and the other sinks recorded")
 
     def models(self, tier):
         return [("MC_Format", "MC_Format" if tier == "quick" else "MC_Format_full")]
@@ -79,7 +82,9 @@ class C11(FmtCheck):
                   "decides the output bytes")
     rule = ("13 integer/character argument types x 29 boundary values x 26 field specifications; 11 string argument forms x lengths 0..5 x "
             "widths x precisions x alignments x pads; booleans; 19 code points x 9 types through {c}; 10 argument-order patterns; seeded random "
-            "fields assembled from alignment/pad/width/precision/#/+/class/&N components in canonical or shuffled order with random arguments")
+            "fields assembled from alignment/pad/width/precision/#/+/class/&N components in canonical or shuffled order with random arguments "
+            "(string arguments incl. embedded NUL and 200-character texts of multi-byte characters); every width 1..14 x radix x #/+ x "
+            "8 padding styles (incl. the 0 flag combined with a pad character) for six values; zero-padded binary/octal/hex of 64-bit extremes")
 
     def models(self, tier):
         return [("MC_Format", "MC_Format" if tier == "quick" else "MC_Format_full")]
@@ -101,7 +106,7 @@ class C12(FmtCheck):
     rule = ("all 65,536 values of short and unsigned short in bases {2,8,10,16,36} (quick) / all 35 bases x both cases (thorough); for all 8 "
             "integer types: 0, 2^k-1, 2^k, 2^k+1, b^j-1, b^j, b^j+1, most negative values, in all 35 bases; seeded random values; 53 fixed and "
             "seeded random texts (white space, signs, prefixes, overflow, embedded NUL) x 6-9 bases through 8 to_* members and their "
-            "no-result overloads; executed under UBSan (the statement excludes undefined behaviour)")
+            "no-result overloads, the conversion_result object being reused and primed with the opposite flags before every call; executed under UBSan (the statement excludes undefined behaviour)")
     exhaustive_note = "thorough tier enumerates every 16-bit value in every base and letter case"
 
     def models(self, tier):
@@ -132,7 +137,8 @@ class C13(FmtCheck):
                   "rendering, strtod/strtof flags, and totality for renderings of any length")
     rule = ("directed doubles/floats (0, -0, subnormals, DBL_MIN/MAX, FLT_MIN/MAX, powers of ten and two, inf, nan) x notations g f e E x "
             "precisions {none,0,1,6,17,40,60,400} x sign flag x widths {5,12,80} x alignments x pad; seeded random bit patterns with random "
-            "field components; 27 fixed and seeded random texts through to_float/to_double")
+            "field components; explicit negative precisions; 27 fixed and seeded random texts and 180 texts at / just above the midpoint of two "
+            "adjacent floats through to_float/to_double with a reused, primed conversion_result")
 
     def models(self, tier):
         return [("MC_Format", "MC_Format")]
@@ -150,8 +156,9 @@ class C17(FmtCheck):
                   "recorded output of ST::printf(FILE*), writef to char/wchar_t/char16_t/char32_t streams, format_latin_1 and the _stfmt "
                   "literal is decided by TLC against its sink model, and ST::string stream insertion/extraction against transcoding")
     rule = ("every successful format call of the C10 token sweep, the C11 directed layouts and random fields is run through 11 sinks; "
-            "stream insertion into 4 stream types and extraction from char/wchar_t streams for seeded random strings over ASCII, white "
-            "space and 2/3/4-byte characters")
+            "(incl. narrow and wide streams with a pending width and fill); stream insertion into 4 stream types and extraction from "
+            "char/wchar_t streams for seeded random strings over ASCII, white space, NUL and 2/3/4-byte characters, also into a string "
+            "that already holds a token and under noskipws")
 
     def models(self, tier):
         return [("MC_Format", "MC_Format" if tier == "quick" else "MC_Format_full")]
